@@ -5,6 +5,9 @@ CLAIMED = {
  "C01": ("exploration", "Seeded deterministic simulation: real backend over real engines under a token scheduler; ground-truth version chain + exact in-flight justification of every failed condition. Exploration because interleavings and inputs are sampled from a PRNG, not enumerated.", "6 (C01)"),
  "C02": ("exploration", "Same simulated runs with reads; uniqueness, real-time order, per-key monotonicity and header>=data are checked over the recorded history and the ground truth.", "6 (C02)"),
  "C04": ("exploration", "Committed revision sampled after every scheduler step against in-flight storage transactions (safety) plus a bounded-liveness probe after faults stop; hostile expected revisions and injected engine errors.", "6 (C04)"),
+ "C03": ("exploration", "Seeded histories (sequential and concurrent) with every read compared byte for byte with an MVCC reference model rebuilt from the ground truth of applied batches; re-reads after further writes and compaction.", "6 (C03)"),
+ "C05": ("exploration", "Watch registration raced with writes under seeded schedules at the hook points the property names; delivered sequence must be an exact prefix of (at quiescence: equal to) the expected event sequence derived from the ground truth; long shallow runs overflow a subscriber buffer.", "6 (C05)"),
+ "C06": ("exploration", "Observable-only cross-check under seeded schedules: list(R) folded with delivered events up to R' must equal list(R'), with concurrent writers and compactions.", "6 (C06)"),
 }
 TECH = "deterministic simulation with fault injection (seeded token scheduler over testing/synctest, simkv fault seam, reference-model oracles)"
 NOTE = "Trusted: Go 1.26.8 testing/synctest quiescence, the simulator's decoder of the key layout, the hook lines (add-only, tag verif). Sampled search: clean run = evidence, not proof."
